@@ -928,6 +928,18 @@ func (r *Runner) dispatch(i int, op *Op) {
 		r.doIter(i, op)
 	case "backup":
 		r.doBackup(op)
+	case "bulk":
+		// n keys loaded in a scattered order (stride 7 over the key numbers), one Put each
+		n := op.N
+		for j := 0; j < n && !r.violated(); j++ {
+			idx := (j * 7) % n
+			if n%7 == 0 {
+				idx = (j*11 + 3) % n
+			}
+			r.doPut(i, &Op{K: "put", Key: Bytes(fmt.Sprintf("%s%04d", op.Key, idx)), Val: &Val{Len: op.Val.Len, Tag: op.Val.Tag + uint32(j)}})
+		}
+		r.inc("bulk_loads")
+		r.add("bulk_keys", int64(n))
 	case "sleep":
 	default:
 		r.Infra = "unknown op kind " + op.K
